@@ -81,6 +81,10 @@ def run(repo: Repo, rep: Report, tier: str) -> None:
     rep.check(uses_usage, "C06-R2", "the decider is inlined (and removed) only when the complete consumer set has a single member",
               "guarded by the usage index (consumers)" if uses_usage else
               "the multiplicity test only sees the sinks registered so far: with `Signal c = x > 5; lamp.enable = c; Signal d = c + 1;` the decider is removed although d still reads it", tic.loc())
+    keeps_outputs = any("self.signal_usage.get(signal_ref.source_id)" in g and "debug_metadata" in g and ".get('is_output')" in g and not pol for g, pol in gs)
+    rep.check(keeps_outputs, "C06-R2", "a comparison that is exposed under a name of its own (is_output) is not removed by inlining",
+              "guarded by the usage entry's is_output flag" if keeps_outputs else
+              "`Signal c = x > 5; Signal alias = c; lamp.enable = c;` removes the decider although the output anchor of `alias` is wired to it (the anchor reads nothing)", tic.loc())
     pw = ep.methods["_place_entity_prop_write"]
     pmw = parents_map(pw.node)
     rm = [n for n in walk_local(pw.node) if isinstance(n, ast.Assign) and "source_node_id_to_remove" in norm(n.targets[0])]
